@@ -1,13 +1,14 @@
 (* C07, part 2 (continued): the planner chain of a query of in_fragment2 keeps the invariant of LogqlSem2Base.v
    stage by stage; the labels join is the base case; ORDER BY / LIMIT / the final select give logql_sem2. *)
 From Coq Require Import List ZArith NArith QArith String Ascii Bool Lia Permutation.
-From Qryn Require Import lib.Strs model.Sql model.SqlRender model.Logql model.LogqlPlan model.SqlEval model.LogqlSem
-  proofs.SqlEvalProofs proofs.LogqlSemProofs.
+From Qryn Require Import lib.Strs model.Sql model.SqlRender model.Logql model.LogqlRegexp model.LogqlPlan model.SqlEval model.LogqlSem
+  proofs.SqlEvalProofs proofs.LogqlSemProofs proofs.LogqlRegexpProofs.
 From Qryn Require Import proofs.LogqlSem2Base.
 Import ListNotations.
 Open Scope string_scope.
 
 Section PLAN2.
+  Context {RG : ReGroups}.
   Variable re_match : string -> string -> bool.
   Variable parse_float : string -> option Q.
   Variable json_get : string -> list string -> string.
@@ -40,6 +41,18 @@ Section PLAN2.
     exists (json_patch ps paths sel), st', (PParserP PJson ps cur'). split.
     - cbn [process]. rewrite Hp. cbn [bind]. rewrite Hpa. reflexivity.
     - now apply (A7 sinv_json ms sel done m swap ps paths).
+  Qed.
+  Lemma pinv_regexp cur done m swap ps : pinv cur done m swap -> (m = MFresh \/ m = MParsed) ->
+    regexp_ok ps = true -> regexp_oracle ps -> pinv (PParserP PRegexp ps cur) (done ++ [PParser PRegexp ps]) MParsed swap.
+  Proof.
+    intros [sel [st' [cur' [Hp Hs]]]] Hm Hok Ho.
+    unfold regexp_ok in Hok. apply andb_prop in Hok. destruct Hok as [Hne Hpl].
+    destruct ps as [|p0 ps']; [discriminate|].
+    destruct (re_plan (re_source (p0 :: ps'))) as [[sent names]|] eqn:Epl; [|discriminate].
+    destruct (re_plan_sent_names _ _ _ Epl) as [Es En].
+    exists (regexp_patch (p0 :: ps') sel), st', (PParserP PRegexp (p0 :: ps') cur'). split.
+    - cbn [process]. rewrite Hp. cbn [bind]. change (pp_val p0) with (re_source (p0 :: ps')). rewrite Epl, Es, En. reflexivity.
+    - now apply (A7 sinv_regexp ms sel done m swap).
   Qed.
   Lemma pinv_drop cur done m swap ps : pinv cur done m swap -> (m = MFresh \/ m = MParsed) ->
     pinv (PDropP ps cur) (done ++ [PDrop ps]) MParsed swap.
@@ -85,10 +98,11 @@ Section PLAN2.
   Qed.
 
   (* ---------- the stages of the fragment, the renew flag, which stage an open select accepts ---------- *)
-  Definition frag_stage (s : stage) : bool := is_filter s || is_json s || LogqlSem.is_drop s.
+  Definition frag_stage (s : stage) : bool := is_filter s || is_json s || LogqlSem.is_drop s || is_regexp s.
   Definition compat (m : mode) (swap : bool) (s : stage) : Prop :=
     match s with
     | PParser PJson _ => m = MFresh \/ m = MParsed
+    | PParser PRegexp _ => m = MFresh \/ m = MParsed
     | PDrop _ => m = MFresh \/ m = MParsed
     | PLineFilter _ _ _ | PLabelFilter _ => swap = false
     | _ => False
@@ -106,11 +120,12 @@ Section PLAN2.
     assert (H : exists cur2, plan_stage s false cur = Some cur2 /\ pinv cur2 (done ++ [s]) (mode_after s) swap).
     { destruct s as [op v rl|f|fn ps|tm| |lb|ps]; cbn [compat] in Hc; try contradiction.
       - subst swap. eexists. split; [reflexivity|]. now apply (pinv_line_filter cur done m).
-      - subst swap. eexists. split; [reflexivity|]. unfold frag_stage in Hf. cbn in Hf. rewrite !orb_false_r in Hf.
-        now apply (pinv_label_filter cur done m).
-      - destruct fn; try contradiction. unfold frag_stage in Hf. cbn [is_filter is_json LogqlSem.is_drop orb] in Hf.
-        rewrite orb_false_r in Hf. unfold json_ok in Hf. destruct (all_paths ps) as [paths|] eqn:Ep; [|discriminate].
-        eexists. split; [reflexivity|]. now apply (pinv_json cur done m swap ps paths).
+      - subst swap. eexists. split; [reflexivity|]. unfold frag_stage in Hf. cbn [is_filter is_json LogqlSem.is_drop is_regexp orb] in Hf.
+        rewrite !orb_false_r in Hf. now apply (pinv_label_filter cur done m).
+      - destruct fn; try contradiction; unfold frag_stage in Hf; cbn [is_filter is_json LogqlSem.is_drop is_regexp orb] in Hf.
+        + rewrite !orb_false_r in Hf. unfold json_ok in Hf. destruct (all_paths ps) as [paths|] eqn:Ep; [|discriminate].
+          eexists. split; [reflexivity|]. now apply (pinv_json cur done m swap ps paths).
+        + eexists. split; [reflexivity|]. now apply (pinv_regexp cur done m swap ps).
       - eexists. split; [reflexivity|]. now apply (pinv_drop cur done m). }
     destruct H as [cur2 [-> Hp2]]. destruct rn.
     - eexists. split; [reflexivity|]. now apply (pinv_renew cur2 _ (mode_after s) swap).
@@ -295,16 +310,18 @@ Section PLAN2.
   (* ================= the planner of a fragment query: filters, then the first relabelling stage, then anything ================= *)
   Lemma is_filter_supported s : is_filter s = stage_supported s.
   Proof. destruct s; reflexivity. Qed.
-  Lemma frag_split : forall l, forallb frag_stage l = true -> existsb (fun s => is_json s || LogqlSem.is_drop s) l = true ->
-    exists pre s0 rest, l = (pre ++ s0 :: rest)%list /\ forallb stage_supported pre = true /\ (is_json s0 || LogqlSem.is_drop s0) = true.
+  Lemma frag_split : forall l, forallb frag_stage l = true -> existsb (fun s => is_json s || LogqlSem.is_drop s || is_regexp s) l = true ->
+    exists pre s0 rest, l = (pre ++ s0 :: rest)%list /\ forallb stage_supported pre = true
+      /\ (is_json s0 || LogqlSem.is_drop s0 || is_regexp s0) = true.
   Proof.
     induction l as [|s l IH]; intros Hf Hex; [discriminate|].
     cbn [forallb existsb] in Hf, Hex. apply andb_prop in Hf. destruct Hf as [Hs Hl].
-    destruct (is_json s || LogqlSem.is_drop s) eqn:E.
+    destruct (is_json s || LogqlSem.is_drop s || is_regexp s) eqn:E.
     - exists [], s, l. split; [reflexivity|]. split; [reflexivity|exact E].
     - cbn [orb] in Hex. destruct (IH Hl Hex) as [pre [s0 [rest [-> [Hp H0]]]]].
       exists (s :: pre), s0, rest. split; [reflexivity|]. split; [|exact H0].
-      cbn [forallb]. rewrite Hp, andb_true_r. unfold frag_stage in Hs. rewrite <- orb_assoc, E, orb_false_r in Hs.
+      cbn [forallb]. rewrite Hp, andb_true_r. unfold frag_stage in Hs. rewrite <- !orb_assoc in Hs. rewrite <- !orb_assoc in E.
+      rewrite E, orb_false_r in Hs.
       now rewrite <- is_filter_supported.
   Qed.
 
@@ -410,7 +427,7 @@ Section PLAN2.
   Section FINAL.
     Variable ppl : list stage.
     Hypothesis Hfrag : forallb frag_stage ppl = true.
-    Hypothesis Hex : existsb (fun s => is_json s || LogqlSem.is_drop s) ppl = true.
+    Hypothesis Hex : existsb (fun s => is_json s || LogqlSem.is_drop s || is_regexp s) ppl = true.
     Hypothesis Hor : forall s, List.In s ppl -> stage_oracle_ok re_match parse_float s.
     Let q := {| sel_matchers := ms; sel_pipeline := ppl |}.
 
@@ -430,8 +447,8 @@ Section PLAN2.
       assert (Hor_rest : forall s, List.In s rest -> stage_oracle_ok re_match parse_float s).
       { intros s Hs. apply Hor. rewrite E. apply in_or_app. right. now right. }
       assert (Hc0 : compat MFresh true s0).
-      { destruct s0 as [op v rl|f|fn ps|tm| |lb|ps]; cbn in H0; try discriminate H0.
-        - destruct fn; cbn in H0; try discriminate H0. now left.
+      { destruct s0 as [op v rl|f|fn ps|tm| |lb|ps]; cbn [is_json LogqlSem.is_drop is_regexp orb] in H0; try discriminate H0.
+        - destruct fn; cbn [orb] in H0; try discriminate H0; now left.
         - now left. }
       pose proof (pinv_join pre Hpre Hor_pre) as Hj.
       destruct (pinv_step _ pre MFresh true s0 (rn_flag s0 rest) Hj Hfs0 Hor0 Hc0) as [cur3 [Hst Hp3]].
@@ -508,13 +525,13 @@ End PLAN2.
 
 (* ================= the property theorem ================= *)
 Theorem logql_log_partial_parsers_proof :
-  forall re_match parse_float json_get hash_labels (tie : forall A : Type, list A -> list A),
+  forall (RG : ReGroups) re_match parse_float json_get hash_labels (tie : forall A : Type, list A -> list A),
     (forall A (l : list A), Permutation (tie A l) l) ->
     forall q c d, in_fragment2 q = true -> oracle_ok re_match parse_float q -> ctx_ok c = true -> db_ok c d ->
     width_guard q = true -> absent_guard re_match q d ->
     log_correct2 re_match parse_float json_get hash_labels tie q c d.
 Proof.
-  intros re_match parse_float json_get hash_labels tie Htie [ms ppl] c d Hfrag Hor Hctx Hdb Hw Hg.
+  intros RG re_match parse_float json_get hash_labels tie Htie [ms ppl] c d Hfrag Hor Hctx Hdb Hw Hg.
   unfold in_fragment2 in Hfrag. cbn [sel_matchers sel_pipeline] in Hfrag.
   apply andb_prop in Hfrag. destruct Hfrag as [Hfrag Hex]. apply andb_prop in Hfrag. destruct Hfrag as [Hne Hall].
   unfold width_guard in Hw. cbn [sel_matchers] in Hw. apply Nat.leb_le in Hw.
@@ -568,6 +585,50 @@ Proof.
   split; [reflexivity|]. split.
   { intros s Hs. cbn in Hs. destruct Hs as [<-|[<-|[<-|[<-|[<-|[<-|[]]]]]]]; cbn; try tauto. split; [intros He; discriminate|exact I]. }
   split; [reflexivity|]. split; [exact ex2_db_ok|]. split; [reflexivity|]. split.
+  { intros m Hm He s Hs. cbn in Hm. destruct Hm as [<-|[]]. vm_compute in He. discriminate. }
+  vm_compute; reflexivity.
+Qed.
+
+(* ---- ... and by a query with a regexp stage whose expression nests a group in a NAMED group: the names are paired with the
+        groups by opening parenthesis (ip, n, verb), the label filter reads an extracted label, the drop removes another ---- *)
+Definition ex3_line : string := "10.2 get".
+Definition ex3_re : string := "(?P<ip>(?P<n>\d+)\.\d+) (?P<verb>\w+)".
+#[local] Instance ex3_groups : ReGroups | 0 := fun pat line =>
+  if String.eqb pat "((\d+)\.\d+) (\w+)" then Some (if String.eqb line ex3_line then ["10.2"; "10"; "get"] else [""; ""; ""]) else None.
+Definition ex3_query : strsel :=
+  {| sel_matchers := [{| m_name := "b"; m_op := MEq; m_val := "1" |}];
+     sel_pipeline := [PParser PRegexp [{| pp_label := ""; pp_val := ex3_re; pp_path := None |}];
+                      PLabelFilter (LF (HSimple {| slf_label := "n"; slf_fn := LEq; slf_str := Some "10"; slf_num := None |}) None None);
+                      PDrop [("ip", None)]] |}.
+Definition ex3_db : database :=
+  {| d_gin := [gin_of w_series ("b", "1")]; d_series := [w_series];
+     d_samples := [{| x_fp := 7; x_ts := 1700000000000000005; x_line := ex3_line; x_type := 1 |};
+                   {| x_fp := 7; x_ts := 1700000000000000006; x_line := "no match here"; x_type := 1 |}] |}.
+Lemma ex3_db_ok : db_ok ex_ctx ex3_db.
+Proof.
+  unfold db_ok, ex3_db. cbn [d_gin d_series d_samples]. split; [|split; [|split]].
+  - intros g. split.
+    + intros [<-|[]]. exists w_series, ("b", "1"). cbn. tauto.
+    + intros [s [kv [[<-|[]] [[<-|[]] ->]]]]. now left.
+  - intros s1 s2 [<-|[]] [<-|[]] _. reflexivity.
+  - intros s [<-|[]]. cbn. constructor; [intros []|constructor].
+  - intros x [<-|[<-|[]]]; exists w_series; cbn; (split; [now left|]); (split; [reflexivity|]); (split; [reflexivity|]);
+      vm_compute; discriminate.
+Qed.
+Example partial_regexp_guards_met :
+  in_fragment2 ex3_query = true /\ oracle_ok (RG := ex3_groups) no_re no_float ex3_query /\ ctx_ok ex_ctx = true /\ db_ok ex_ctx ex3_db
+  /\ width_guard ex3_query = true /\ absent_guard no_re ex3_query ex3_db
+  /\ match log_select ex3_query ex_ctx with
+     | Some sel => option_map (map row_out) (eval (RG := ex3_groups) no_re no_float ex2_json ex2_hash tie_id (to_sqldb ex_ctx ex3_db) sel)
+     | None => None end
+     = Some [Some {| o_fp := 103; o_labels := [("b", "1"); ("n", "10"); ("verb", "get")]; o_line := ex3_line; o_ts := 1700000000000000005 |}].
+Proof.
+  split; [reflexivity|]. split.
+  { intros s Hs. cbn in Hs. destruct Hs as [<-|[<-|[<-|[]]]]; cbn [stage_oracle_ok lf_oracle_ok simple_oracle_ok]; try tauto.
+    - intros line. change (re_sent _) with "((\d+)\.\d+) (\w+)". change (re_names _) with ["ip"; "n"; "verb"].
+      unfold re_groups, ex3_groups. cbn [String.eqb Ascii.eqb Bool.eqb]. destruct (String.eqb line ex3_line); eexists; split; reflexivity.
+    - split; [intros He; discriminate|exact I]. }
+  split; [reflexivity|]. split; [exact ex3_db_ok|]. split; [reflexivity|]. split.
   { intros m Hm He s Hs. cbn in Hm. destruct Hm as [<-|[]]. vm_compute in He. discriminate. }
   vm_compute; reflexivity.
 Qed.
